@@ -47,7 +47,21 @@ def bounded_xor(tier, seed):
                 ok = ok and len(kids) == 0
             if not ok and len(failures) < 4:
                 failures.append({"id": f"xor key {key}", "function": "multidecoder.xor_helper.apply_xor_key", "obligation": "post", "case": {"xor": data.hex()}, "observed": f"{data!r}: {[(h.value, [(c.value, c.obfuscation) for c in h.children]) for h in hits]!r}"})
-    return {"evaluations": n, "distinct_nontrivial": n, "scope": "keys 0..259 step 7, 255, 256, 300, 999 x two call forms", "failures": failures, "samples": [{"key": 65}]}
+    # several calls in one text: each node gets its OWN payload XORed
+    for fn, mk in ((find_FromBase64String, lambda p_: b"FromBase64String('" + base64.b64encode(p_) + b"')"), (find_FromHexString, lambda p_: b"FromHexString('" + binascii.hexlify(p_) + b"')")):
+        ps = [bytes(rng.randrange(256) for _ in range(L)) for L in (10, 14, 23)]
+        data = b"; ".join(mk(p_) for p_ in ps) + b" -bxor 77"
+        n += 1
+        try:
+            hits = fn(data)
+        except Exception as e:  # noqa: BLE001
+            hits = []
+            failures.append({"id": f"xor raises {type(e).__name__}", "function": "multidecoder.xor_helper.apply_xor_key", "obligation": "safe", "case": {"xor": data.hex()}, "observed": f"{type(e).__name__}: {e}"})
+        ok = [h.value for h in hits] == ps and all(len(h.children) == 1 and h.children[0].value == bytes(b ^ 77 for b in h.value) and (h.children[0].start, h.children[0].end) == (0, len(h.value)) for h in hits)
+        if not ok and len(failures) < 5:
+            failures.append({"id": "xor children of several calls in one text", "function": fn.__module__ + "." + fn.__name__, "obligation": "post", "case": {"xor": data.hex()},
+                             "observed": f"{[(len(h.value), [(c.start, c.end, len(c.value)) for c in h.children]) for h in hits]!r} for payload lengths {[len(p_) for p_ in ps]}"})
+    return {"evaluations": n, "distinct_nontrivial": n, "scope": "keys 0..259 step 7, 255, 256, 300, 999 x two call forms; three calls of different payload lengths sharing one key", "failures": failures, "samples": [{"key": 65}]}
 
 
 BOUNDED.append(bounded_xor)
